@@ -373,3 +373,17 @@ def test_c05_state_energy_under_wavelength_units():
         assert abs(es.vibenergy((2,)) - 5000.0) < 1e-6
     with qr.energy_units("1/cm"):
         assert abs(es.energy((1,)) - 10000.0) < 1e-6
+
+
+def test_c04_failed_nested_enter_leaves_bookkeeping_alone():
+    """fbdd6f4: __enter__ that raises does not change the manager's records."""
+    from quantarhei.qm import SelfAdjointOperator
+    A = SelfAdjointOperator(data=numpy.array([[0.0, 0.2, 0.0], [0.2, 1.0, -0.3], [0.0, -0.3, 1.5]]))
+    bad = SelfAdjointOperator(data=numpy.array([[1.0, 0.3], [0.3, -2.0]]))
+    m = Manager()
+    with qr.eigenbasis_of(A):
+        with pytest.raises(Exception):
+            qr.eigenbasis_of(bad).__enter__()
+        assert m.current_basis_operator is A
+        assert m.basis_stack == [0, 1]
+    assert m._in_eigenbasis_of_context is False
